@@ -28,7 +28,7 @@ vars == <<mem, ref, snapq, devs, hist>>
 V(s, n, num) == [s |-> s, n |-> n, num |-> num]
 Vals == {V("x", 0, FALSE), V("7", 7, TRUE), V("", 0, FALSE), V("two words", 0, FALSE)}
 Incs == {1, -3}
-Pats == {"*", "a*", "*b", "$$"}
+Pats == {"*", "a*", "*b", "$$", "$*"}
 NoVal == V("<none>", 0, FALSE)
 Tomb  == V("<Empty>", 0, FALSE)
 Absent == [st |-> "Absent", val |-> NoVal, ver |-> 0]
@@ -42,7 +42,9 @@ Init ==
   /\ devs = {}
   /\ hist = <<>>
 
-Log(c, rec) == hist' = Append(hist, rec @@ [c |-> c])
+(* the record carries what the model holds in memory after the step (persistence state, version per key): the *)
+(* driver compares it with the node's entries and explores further from a step that differs                   *)
+Log(c, rec) == hist' = Append(hist, rec @@ [c |-> c, post |-> [k \in Keys |-> <<mem'[k].st, mem'[k].ver>>]])
 
 (* a plain session is refused on secure keys: the command is issued, nothing happens *)
 Denied(c, k) == c # "a" /\ k \in Secure
@@ -58,7 +60,6 @@ Set(c, k, v, delta) ==
       ver == IF delta = 99 THEN -1 ELSE old.ver + delta
   IN /\ ver >= -1
      /\ (delta # 99 => ver >= 0)
-     /\ Log(c, [op |-> IF delta = 99 THEN "set" ELSE "set-safe", k |-> k, v |-> v.s, ver |-> ver])
      /\ IF Denied(c, k) THEN UNCHANGED <<mem, ref>> ELSE
         IF old.st = "Absent"
         THEN /\ mem' = [mem EXCEPT ![k] = [st |-> "New", val |-> v, ver |-> ver + 1]]
@@ -69,20 +70,20 @@ Set(c, k, v, delta) ==
              ELSE /\ mem' = [mem EXCEPT ![k] = [st |-> UpdSt(old), val |-> v, ver |-> nv]]
                   /\ ref' = [ref EXCEPT ![k] = v]
      /\ UNCHANGED <<snapq, devs>>
+     /\ Log(c, [op |-> IF delta = 99 THEN "set" ELSE "set-safe", k |-> k, v |-> v.s, ver |-> ver])
 
 Remove(c, k) ==
   LET old == mem[k] IN
-  /\ Log(c, [op |-> "remove", k |-> k])
   /\ IF Denied(c, k) THEN UNCHANGED <<mem, ref>> ELSE
        /\ mem' = [mem EXCEPT ![k] =
                     IF old.st \in {"Absent", "New"} THEN Absent
                     ELSE [st |-> "Deleted", val |-> Tomb, ver |-> old.ver + 1]]
        /\ ref' = [ref EXCEPT ![k] = NoVal]
   /\ UNCHANGED <<snapq, devs>>
+  /\ Log(c, [op |-> "remove", k |-> k])
 
 Increment(c, k, n) ==
   LET old == mem[k] IN
-  /\ Log(c, [op |-> "increment", k |-> k, n |-> n])
   /\ IF Denied(c, k) THEN UNCHANGED <<mem, ref, devs>> ELSE
      IF old.st = "Absent"
      THEN /\ mem' = [mem EXCEPT ![k] = [st |-> "New", val |-> NumV(n), ver |-> 1]]
@@ -100,30 +101,33 @@ Increment(c, k, n) ==
      ELSE \* "Key is not numeric"
           /\ UNCHANGED <<mem, ref, devs>>
   /\ UNCHANGED snapq
+  /\ Log(c, [op |-> "increment", k |-> k, n |-> n])
 
 Read(c, k, safe) ==
-  /\ Log(c, [op |-> IF safe THEN "get-safe" ELSE "get", k |-> k])
   /\ UNCHANGED <<mem, ref, snapq, devs>>
+  /\ Log(c, [op |-> IF safe THEN "get-safe" ELSE "get", k |-> k])
 
 ListKeys(c, p) ==
-  /\ Log(c, [op |-> "keys", p |-> p])
   /\ UNCHANGED <<mem, ref, snapq, devs>>
+  /\ Log(c, [op |-> "keys", p |-> p])
 
 SnapReq(reclaim) ==
-  /\ Log("a", [op |-> "snapshot", reclaim |-> reclaim])
   /\ snapq' = IF reclaim THEN "reclaim" ELSE "inc"
   /\ UNCHANGED <<mem, ref, devs>>
+  /\ Log("a", [op |-> "snapshot", reclaim |-> reclaim])
 
 (* declutter tick: storage_data_disk's per-state plan *)
 Tick ==
   /\ snapq # "none"
-  /\ Log("-", [op |-> "tick"])
   /\ mem' = [k \in Keys |->
                LET e == mem[k] IN
                IF e.st \in {"New", "Updated"} \/ (snapq = "reclaim" /\ e.st = "Ok")
-               THEN [e EXCEPT !.st = "Ok"] ELSE e]
+               THEN [e EXCEPT !.st = "Ok"]
+               \* a reclaiming snapshot does not write tombstones and forgets them
+               ELSE IF snapq = "reclaim" /\ e.st = "Deleted" THEN Absent ELSE e]
   /\ snapq' = "none"
   /\ UNCHANGED <<ref, devs>>
+  /\ Log("-", [op |-> "tick"])
 
 Next ==
   /\ Len(hist) < MaxLen
